@@ -42,6 +42,9 @@ CHECKS = {
  "C19": dict(
    text="Theorems over a reference-level table model (items in heap cells, index keys that are references, freed cells, outcome UAF): C19_find_refines (under the ownership invariant a lookup never touches freed memory and equals the value-level lookup), C19_own_refs (de-duplicating adds keep the invariant and refine the value-level add), C19_value_copy (copy: same content, storage of its own, source unchanged), C19_destroy_other, C19_copy_independent (copy, destroy the source, look up: result of a fresh table with that content); C19_shallow_copy_refuted exhibits the UAF the implicit member-wise copy produced. Tie: correspondence under ASan on histories over up to four CdnsBlock / CdnsBlockRead objects (copy-/move-construct, copy-/move-assign, 'block = reader.read_block(eof)', destroy / clear / refill the source, de-duplicating adds, serialisation, generic reads) against the value-level model; oracle on the implementation alone: every observable result equals that on a block rebuilt from scratch; read blocks must aggregate address events.",
    ref="DESIGN.md 3.19", note="The heap model abstracts std::deque / std::unordered_map to 'stable cells + list of key references'; real allocator behaviour is observed by ASan, not proved (partial w.r.t. memory safety of the containers themselves)."),
+ "C14": dict(
+   text="Theorems C14_transparent / C14_one_stream_per_output over a model of the gzip / xz wrappers around an abstract compressor (Section variables crun / cfinish / decompress with the single recorded hypothesis codec_ok): for every sequence of writes in any chunking and every rotation pattern, closed by rotation or destruction, the inner writer receives per output exactly one complete stream (finish before the inner rotation, re-initialise after) and it decompresses to what the uncompressed writer receives for the same calls. Tie: the real writers (named and descriptor, gzip and xz) on generated data / chunkings / rotations incl. a 9 MiB chunk; every closed output is decompressed with Python zlib / lzma (one complete stream, no trailing bytes, suffix) and compared with the uncompressed writer's output; the open/write/close/rename skeleton is compared with the model's trace.",
+   ref="DESIGN.md 3.14", note="Partial: zlib / liblzma themselves and the termination of the finish loops are the hypothesis codec_ok, validated by the independent decompressors, not proved.", category="proof"),
  "C17": dict(
    text="Theorems C17_offset_exact / C17_add_inverse / C17_compare_lt / C17_compare_le / C17_refuse / C17_rate0 / C17_no_ub / C17_block / C17_block_offsets over a model of Timestamp in Z with the code's int64 arithmetic made explicit (an overflowing signed operation is the distinguished outcome TUB): for every tick rate 1..10^9, all instants below 2^63 ticks and all int64 offsets (INT64_MIN included). C17_block is an invariant by induction over every add history of a block (timed/untimed records in any order). Tie: correspondence (same commands through the real Timestamp / CdnsBlock classes under UBSan and through the extracted model) + Python big-integer oracle.",
    ref="DESIGN.md 3.17", note="Hypothesis of the theorems: ticks_per_second <= 10^9 and instants < 2^63 ticks (the 'representable range' of the property)."),
